@@ -102,7 +102,7 @@ fn random(rep: &Reporter, n_hist: usize, len: usize) {
 fn main() {
     let rep = Reporter::from_args("C01");
     rep.fold_aux();
-    rep.rule("every history over 28 registry operations (write attempts under a live shared guard, insert, remove, set_value, get_mut, try_borrow_value_mut, entry or_insert / and_modify_value / occupied insert+remove, parent_mut().insert, into_child, into_parent, with_inner_state ok/failing) on 2 state types (one borrowing harness memory, lifetime 'a), depth<=4, up to the stated length, executed on a real State and compared with a Vec<BTreeMap> model; after EVERY operation a full sweep compares every type in every scope plus all read accessors (contains, contains_at_top, find, try_borrow, borrow, try_get_value, get_value, try_borrow_value, borrow_value, require). Plus seeded random histories over 34 operations, 3-5 types, depth<=6. distinct_nontrivial = distinct (final model state, last op) of exhaustive histories that operated under shadowing + distinct random histories");
+    rep.rule("every history over 32 registry operations (write attempts under a live shared guard, holding (take out, write, put back; the shadowed instance is what the rest sees meanwhile), try_get_multiple_mut over two types, insert, remove, set_value, get_mut, try_borrow_value_mut, entry or_insert / and_modify_value / occupied insert+remove, parent_mut().insert, into_child, into_parent, with_inner_state ok/failing) on 2 state types (one borrowing harness memory, lifetime 'a), depth<=4, up to the stated length, executed on a real State and compared with a Vec<BTreeMap> model; after EVERY operation a full sweep compares every type in every scope plus all read accessors (contains, contains_at_top, find, try_borrow, borrow, try_get_value, get_value, try_borrow_value, borrow_value, require). Plus seeded random histories over 34 operations, 3-5 types, depth<=6. distinct_nontrivial = distinct (final model state, last op) of exhaustive histories that operated under shadowing + distinct random histories");
     rep.assume("unique values per write make every read identify the write it observed");
     let len = rep.tier.pick(4usize, 5usize);
     rep.set("exhaustive_history_length", json!(len));
